@@ -50,16 +50,16 @@ theorem C05_unavailable (s : Server) (pk : Msg) (h : s.caps.retainAvailable = 0)
   unfold retainMsg; simp [h]
 
 /-- Retain Handling 2 never sends; 1 sends only for a new subscription; shared filters never receive -/
-theorem C05_rh2_never (s : Server) (i : Nat) (sub : Sub) (ex : Bool) (h : sub.rh = 2) :
-    publishRetainedToClient s i sub ex = (s, []) := by
+theorem C05_rh2_never (s : Server) (i : Nat) (sub : Sub) (ex : Bool) (k : Nat) (h : sub.rh = 2) :
+    publishRetainedToClient s i sub ex k = (s, []) := by
   unfold publishRetainedToClient; split <;> simp [h]
 
-theorem C05_rh1_existing (s : Server) (i : Nat) (sub : Sub) (h : sub.rh = 1) :
-    publishRetainedToClient s i sub true = (s, []) := by
+theorem C05_rh1_existing (s : Server) (i : Nat) (sub : Sub) (k : Nat) (h : sub.rh = 1) :
+    publishRetainedToClient s i sub true k = (s, []) := by
   unfold publishRetainedToClient; split <;> simp [h]
 
-theorem C05_shared_never (s : Server) (i : Nat) (sub : Sub) (ex : Bool) (h : isSharedFilter sub.filter = true) :
-    publishRetainedToClient s i sub ex = (s, []) := by
+theorem C05_shared_never (s : Server) (i : Nat) (sub : Sub) (ex : Bool) (k : Nat) (h : isSharedFilter sub.filter = true) :
+    publishRetainedToClient s i sub ex k = (s, []) := by
   unfold publishRetainedToClient; simp [h]
 
 example : (assocGet (retainMsg (retainMsg (init {}) { topic := [97], payload := [1], retain := true })
